@@ -33,13 +33,15 @@ def assist(project, source, position, filename=None, debug=False):
     marked_import = get_marked_import(source.tree)
     if marked_import:
         head, tail = marked_import
+        # the marked name runs up to the next dot, the match ends at the cursor
+        prefix = re.search(r'\w*$', line).group()
         if tail is None:
             head, tail = split_pkg(head)
-            return tail, list_packages(project, head, filename)
+            return prefix, list_packages(project, head, filename)
         else:
             plist = list_packages(project, head, filename)
             module = project.get_nmodule(head, filename)
-            return tail, sorted(set(plist) | set(module.attr_list(ctx)))
+            return prefix, sorted(set(plist) | set(module.attr_list(ctx)))
 
     scope = extract_scope(source, project)
 
